@@ -188,7 +188,7 @@ theorem callFunction_ok {env : Env} {n : List Char} {args : List Value} {v : Val
 mutual
 theorem evalExpr_writer (env : Env) : ∀ (t : Expr) (log : Log),
     evalExpr env t log = ((evalExpr env t []).1, log ++ (evalExpr env t []).2)
-  | .num l, log => by simp [evalExpr]
+  | .num l, log => by simp only [evalExpr]; split <;> simp
   | .str s, log => by simp [evalExpr]
   | .errLit t, log => by simp [evalExpr]
   | .blankSlot, log => by simp [evalExpr]
@@ -352,7 +352,8 @@ theorem pre_nil (l : List Event) : ([] : List Event) <+: l := List.nil_prefix
 
 mutual
 theorem evalExpr_spec (env : Env) : ∀ t : Expr, Spec env t
-  | .num l => by simp [Spec, evalExpr, allEvents, refsPostorder, eachOne_nil]
+  | .num l => by
+    simp only [Spec, evalExpr]; split <;> simp [allEvents, refsPostorder, eachOne_nil]
   | .str s => by simp [Spec, evalExpr, allEvents, refsPostorder, eachOne_nil]
   | .errLit t => by simp [Spec, evalExpr, allEvents, refsPostorder]
   | .blankSlot => by simp [Spec, evalExpr, allEvents, refsPostorder, eachOne_nil]
